@@ -20,6 +20,7 @@ import (
 	"os"
 	"os/exec"
 	"path/filepath"
+	"sort"
 	"strings"
 	"sync"
 	"sync/atomic"
@@ -46,7 +47,9 @@ type c17Upl struct {
 
 type c17Input struct {
 	Kind   string   `json:"kind"`
-	Writes []uint64 `json:"writes"` // instants (ms) of database writes, increasing
+	Writes []uint64 `json:"writes"` // instants (ms) of successful database writes, increasing
+	Fails  []uint64 `json:"fails,omitempty"` // instants of write attempts whose save fails (state directory unreachable)
+	Reads  []uint64 `json:"reads,omitempty"` // instants of client reads (list, get, info)
 	Script []c17Upl `json:"script"`
 	Cancel uint64   `json:"cancel"` // instant (ms) the context is cancelled
 }
@@ -56,6 +59,7 @@ type c17Upload struct {
 	Gen    uint64 `json:"gen"` // generation of the file version the body equals; 0 = none
 	OK     bool   `json:"ok"`
 	Opens  bool   `json:"opens"` // the body decodes with the database key
+	Bid    uint64 `json:"bid"`   // identifier of the body's bytes (first-seen order, exact comparison)
 	Bucket string `json:"bucket,omitempty"`
 	Key    string `json:"key,omitempty"`
 }
@@ -79,6 +83,7 @@ type c17Store struct {
 	n       int
 	ups     []c17Upload
 	vers    map[[32]byte]uint64
+	bodies  map[[32]byte]uint64
 	racing  uint64
 	wseq    *int
 	note    string
@@ -105,6 +110,35 @@ func (s *c17Store) dbWrite() {
 	s.recordVersion()
 }
 
+// dbFailedWrite: a write attempt whose save fails (the state directory is unreachable while
+// it runs, as in the C03/C04 histories); nothing may change.
+func (s *c17Store) dbFailedWrite() {
+	hidden := s.env.state + ".hidden"
+	if err := os.Rename(s.env.state, hidden); err != nil {
+		s.note += "hide state dir: " + err.Error() + "; "
+		return
+	}
+	*s.wseq++
+	_, err := s.env.d.Put(s.env.super, "k", []byte(fmt.Sprintf("value-%d", *s.wseq)))
+	if err == nil {
+		s.note += "a write with an unreachable state directory succeeded; "
+	}
+	if err := os.Rename(hidden, s.env.state); err != nil {
+		s.note += "restore state dir: " + err.Error() + "; "
+	}
+	s.recordVersion()
+}
+
+// dbReads: what clients do all day.
+func (s *c17Store) dbReads() {
+	s.env.d.List(s.env.super)
+	s.env.d.Get(s.env.super, "k")
+	s.env.d.Info(s.env.super, "k")
+	s.env.d.GetVersion(s.env.super, "k", 1)
+	s.env.d.GetConditional(s.env.super, "k", 1)
+	s.recordVersion()
+}
+
 func (s *c17Store) Do(req *http.Request) (*http.Response, error) {
 	var body []byte
 	if req.Body != nil {
@@ -126,9 +160,14 @@ func (s *c17Store) Do(req *http.Request) (*http.Response, error) {
 	up.Bucket = strings.SplitN(req.URL.Host, ".", 2)[0]
 	up.Key = req.URL.Path
 	_ = parts
-	if g, ok := s.vers[sha256.Sum256(body)]; ok {
+	bh := sha256.Sum256(body)
+	if g, ok := s.vers[bh]; ok {
 		up.Gen = g
 	}
+	if _, ok := s.bodies[bh]; !ok {
+		s.bodies[bh] = uint64(len(s.bodies) + 1)
+	}
+	up.Bid = s.bodies[bh]
 	if _, err := decodeFileBytes(s.env.dir, body, s.env.kek.inner); err == nil {
 		up.Opens = true
 	}
@@ -188,7 +227,7 @@ func runC17Scenario(t *testing.T, work string, idx int, in c17Input) c17Obs {
 		env.sink.quiet = true
 		env.sink.mu.Unlock()
 		wseq := 0
-		st := &c17Store{env: env, start: time.Now(), script: in.Script, vers: map[[32]byte]uint64{}, wseq: &wseq}
+		st := &c17Store{env: env, start: time.Now(), script: in.Script, vers: map[[32]byte]uint64{}, bodies: map[[32]byte]uint64{}, wseq: &wseq}
 		st.recordVersion()
 		client := s3.New(s3.Options{
 			HTTPClient:       st,
@@ -209,13 +248,35 @@ func runC17Scenario(t *testing.T, work string, idx int, in c17Input) c17Obs {
 		wdone := make(chan struct{})
 		go func() {
 			defer close(wdone)
+			type ev struct {
+				t    uint64
+				kind int
+			}
+			var evs []ev
 			for _, w := range in.Writes {
-				d := time.Duration(w)*time.Millisecond - time.Since(st.start)
+				evs = append(evs, ev{w, 0})
+			}
+			for _, w := range in.Fails {
+				evs = append(evs, ev{w, 1})
+			}
+			for _, w := range in.Reads {
+				evs = append(evs, ev{w, 2})
+			}
+			sort.SliceStable(evs, func(i, j int) bool { return evs[i].t < evs[j].t })
+			for _, e := range evs {
+				d := time.Duration(e.t)*time.Millisecond - time.Since(st.start)
 				if d > 0 {
 					time.Sleep(d)
 				}
 				st.mu.Lock()
-				st.dbWrite()
+				switch e.kind {
+				case 0:
+					st.dbWrite()
+				case 1:
+					st.dbFailedWrite()
+				default:
+					st.dbReads()
+				}
 				st.mu.Unlock()
 			}
 		}()
@@ -249,16 +310,18 @@ func coqC17(in c17Input, obs c17Obs) string {
 	for i, e := range in.Script {
 		sc[i] = fmt.Sprintf("U %d %s %d", e.Dur, coqBool(e.OK), e.Race)
 	}
+	bids := make([]uint64, len(obs.Uploads))
 	ups := make([]string, len(obs.Uploads))
 	for i, u := range obs.Uploads {
+		bids[i] = u.Bid
 		g := u.Gen
 		if !u.Opens {
 			g = 0 // a body that does not open with the key is no file version
 		}
 		ups[i] = fmt.Sprintf("(%d,%d,%s)", u.T, g, coqBool(u.OK))
 	}
-	return fmt.Sprintf("Sc %s %s %d %s %s %d %d", coqNList(in.Writes), coqList(sc), in.Cancel, coqList(ups),
-		coqOpt(coqN(obs.Exit), obs.Exited), obs.FinalGen, obs.Racing)
+	return fmt.Sprintf("Sc %s %s %s %s %d %s %s %s %d %d", coqNList(in.Writes), coqNList(in.Fails), coqNList(in.Reads), coqList(sc), in.Cancel,
+		coqList(ups), coqNList(bids), coqOpt(coqN(obs.Exit), obs.Exited), obs.FinalGen, obs.Racing)
 }
 
 func c17Record(in c17Input, obs c17Obs) Record {
@@ -284,6 +347,12 @@ func c17Record(in c17Input, obs c17Obs) Record {
 	if len(in.Writes) == 0 {
 		tags["no-writes"] = true
 	}
+	if len(in.Fails) > 0 {
+		tags["has-failed-write"] = true
+	}
+	if len(in.Reads) > 0 {
+		tags["has-reads"] = true
+	}
 	inflight := false
 	for _, u := range obs.Uploads {
 		if !u.OK && obs.Exited && u.T <= in.Cancel {
@@ -293,7 +362,7 @@ func c17Record(in c17Input, obs c17Obs) Record {
 	_ = inflight
 	kb, _ := json.Marshal(in)
 	rec := Record{Kind: "scenario", Input: in, Obs: obs, Key: string(kb), Tags: sortedKeys(tags),
-		Nontrivial: len(obs.Uploads) >= 3 && len(in.Writes) >= 2, Coq: coqC17(in, obs)}
+		Nontrivial: (len(obs.Uploads) >= 3 && len(in.Writes) >= 2) || (len(in.Fails) >= 2 && len(obs.Uploads) >= 1), Coq: coqC17(in, obs)}
 	for _, u := range obs.Uploads {
 		if u.Bucket != "backups" && !strings.Contains(u.Key, "backups") {
 			rec.Direct = &DirectVerdict{OK: false, What: fmt.Sprintf("upload went to %q %q, not to the configured bucket", u.Bucket, u.Key)}
@@ -306,7 +375,7 @@ func c17Record(in c17Input, obs c17Obs) Record {
 
 func genC17(seed uint64, i int) c17Input {
 	r := NewRand(seed, uint64(170000+i))
-	kinds := []string{"bursts", "idle-hours", "failures", "racing", "slow-uploads", "cancel-early", "mixed", "mixed"}
+	kinds := []string{"bursts", "idle-hours", "failures", "racing", "slow-uploads", "cancel-early", "mixed", "mixed", "failed-writes", "failed-writes"}
 	in := c17Input{Kind: kinds[r.IntN(len(kinds))]}
 	// instants: writes at x*1000+500 (+ a few ms), durations in whole seconds, cancellation at
 	// ...+700: no two events of the timeline fall on the same instant
@@ -321,6 +390,9 @@ func genC17(seed uint64, i int) c17Input {
 	nw := r.IntN(12)
 	if in.Kind == "bursts" {
 		nw = 8 + r.IntN(20)
+	}
+	if in.Kind == "failed-writes" {
+		nw = 6 + r.IntN(14)
 	}
 	for k := 0; k < nw; k++ {
 		var gap uint64
@@ -340,7 +412,21 @@ func genC17(seed uint64, i int) c17Input {
 		if w/1000 >= horizon {
 			break
 		}
-		in.Writes = append(in.Writes, w)
+		// what happens at this instant: a successful write, a write whose save fails (x.300 s)
+		// or reads (x.400 s); in the failed-writes kind most events change nothing
+		p := r.IntN(100)
+		failP, readP := 12, 12
+		if in.Kind == "failed-writes" {
+			failP, readP = 45, 30
+		}
+		switch {
+		case p < failP:
+			in.Fails = append(in.Fails, t*1000+300+uint64(k%7))
+		case p < failP+readP:
+			in.Reads = append(in.Reads, t*1000+400+uint64(k%7))
+		default:
+			in.Writes = append(in.Writes, w)
+		}
 	}
 	ns := r.IntN(6)
 	if in.Kind == "failures" || in.Kind == "racing" || in.Kind == "slow-uploads" {
@@ -491,7 +577,7 @@ func runC17(o Opts) {
 				}
 				rec.ID = out.n
 				out.Emit(rec)
-				if len(self) < 6 && p.Index >= corpusN && len(p.Obs.Uploads) >= 2 && p.Obs.Exited && (p.Index-corpusN)%5 == 1 {
+				if len(self) < 8 && p.Index >= corpusN && len(p.Obs.Uploads) >= 2 && p.Obs.Exited && (p.Index-corpusN)%5 == 1 {
 					self = append(self, rec)
 				}
 				next = p.Index + 1
@@ -530,7 +616,22 @@ func runC17(o Opts) {
 		in := rec.Input.(c17Input)
 		obs := rec.Obs.(c17Obs)
 		obs.Uploads = append([]c17Upload(nil), obs.Uploads...)
-		switch k % 3 {
+		switch k % 4 {
+		case 3: // identical bytes in two consecutive acknowledged uploads
+			prev, done := -1, false
+			for i := range obs.Uploads {
+				if obs.Uploads[i].OK {
+					if prev >= 0 {
+						obs.Uploads[i].Bid = obs.Uploads[prev].Bid
+						done = true
+						break
+					}
+					prev = i
+				}
+			}
+			if !done {
+				obs.FinalGen++
+			}
 		case 0:
 			obs.Uploads[len(obs.Uploads)-1].T += 1000
 		case 1:
